@@ -26,6 +26,14 @@ def qeOfJson (j : Json) : R (QE Rat) := do
   | "scalar" => pure (.scalar v[0]!)
   | "vector" => pure (.vector v.size fun l => v[l]!)
   | "spectrum" => pure (.spectrum fun l => v[l]!)
+  | "spectrumobj" => do
+      -- a Spectrum object: grid (wavelengths in unit `su`, values) and the call's wavelengths in unit `wu`; `v` = grid values
+      let gx ← ratsOfJson (← j.getObjVal? "grid")
+      let wv ← ratsOfJson (← j.getObjVal? "wave")
+      let su ← getStr j "su"; let wu ← getStr j "wu"
+      match Gen.WUnit.ofName? su, Gen.WUnit.ofName? wu with
+      | some a, some b => pure (.spectrumObj ((List.range gx.size).map fun k => (gx[k]!, v[k]!)) a (fun l => wv[l]!) b)
+      | _, _ => throw "bad unit"
   | _ => throw "bad qe kind"
 
 def colourOf (c : Char) : Colour := if c = 'R' then .R else if c = 'G' then .G else .B
@@ -48,15 +56,22 @@ def handle (op : String) (j : Json) : Option (R Json) :=
   | "det.bayer" => some do
       let nw ← getNat j "nw"; let sh ← getInts j "shape"
       let img ← getRats j "img"
-      let d ← getInt j "d"; let os ← getInt j "os"
-      let pat := (← getStr j "pattern").toList.toArray
-      let pattern : Int → Int → Colour := fun a b => colourOf pat[(a * d + b).toNat]!
+      let os ← getInt j "os"
+      -- the raw pattern string goes through the model's `formatBayer` (upper-casing, letter check, squareness, row-major layout)
+      match formatBayer (← getStr j "pattern") with
+      | none => pure (errJ "ValueError")
+      | some (dn, pattern) =>
+      let d : Int := dn
       let qr ← qeOfJson (← j.getObjVal? "qe_r"); let qg ← qeOfJson (← j.getObjVal? "qe_g"); let qb ← qeOfJson (← j.getObjVal? "qe_b")
       match qr.asArray nw, qg.asArray nw, qb.asArray nw with
       | some r, some g, some b =>
         let qe : Colour → Nat → Rat := fun c => match c with | .R => r | .G => g | .B => b
         let R := sh[0]!; let C := sh[1]!
         let im := cube R C img
+        match bayerShape R C d os with
+        | none => pure (errJ "ValueError")
+        | some (br, bc) =>
+        if br != R || bc != C then pure (okJ [("broadcast_shape", ints #[br, bc])]) else
         match bayerFlat nw R C im qe d pattern os,
               bayerChannel nw R C im r d pattern os .R, bayerChannel nw R C im g d pattern os .G, bayerChannel nw R C im b d pattern os .B with
         | some f, some cr, some cg, some cb =>
